@@ -76,22 +76,41 @@ def main():
         inc = [c for c, rc, _ in res if rc == 2]
         print(f"{sid:28s} breaks {meta['property']}: caught by {fired or '-'}"
               + (f" inconclusive {inc}" if inc else "") + (f" [{demo}]" if demo else ""), flush=True)
+    # results of this run are merged into seeded/results.json (keyed by seeded change), from which
+    # RESULTS.md is regenerated, so a partial run (-k) does not forget the others
+    store_path = os.path.join(SEEDED, "results.json")
+    try:
+        store = json.load(open(store_path))
+    except (OSError, ValueError):
+        store = {}
+    head = sh(["git", "-C", VERIF, "rev-parse", "--short", "HEAD"]).stdout.strip()
+    for sid, meta, res, demo in rows:
+        if res is None:
+            store[sid] = {"property": meta["property"], "summary": meta.get("summary", ""), "needs": meta.get("needs", ""),
+                          "error": demo}
+            continue
+        line = next((l for c, rc, l in res if c == meta["property"] and rc == 1), "") or \
+            next((l for c, rc, l in res if rc == 1), "")
+        store[sid] = {"property": meta["property"], "summary": meta.get("summary", ""), "needs": meta.get("needs", ""),
+                      "caught_by": [c for c, rc, _ in res if rc == 1], "inconclusive": [c for c, rc, _ in res if rc == 2],
+                      "first_report": line, "verif_commit_at_run": head}
+    json.dump(store, open(store_path, "w"), indent=1, sort_keys=True)
     with open(os.path.join(SEEDED, "RESULTS.md"), "w") as f:
         f.write("# Seeded changes: which quick checks fire\n\n"
                 "Produced by `tools/run_seeded.py` (each patch applied to /repo, all quick checks run, patch reverted).\n"
-                "`V` = exit 1 with a VIOLATION line, `?` = exit 2 (inconclusive), blank = exit 0.\n\n")
-        f.write("| seeded change | breaks | what it does / what it needs | caught by | first report of the target property's check |\n|---|---|---|---|---|\n")
-        for sid, meta, res, demo in rows:
-            if res is None:
-                f.write(f"| {sid} | {meta['property']} | {meta.get('summary','')} | (not run: {demo}) | |\n")
+                "A check *fires* when it exits 1 with a VIOLATION line; `?` marks exit 2 (inconclusive).\n\n")
+        caught = sum(1 for v in store.values() if v.get("caught_by"))
+        f.write(f"{caught} of {len(store)} seeded changes are caught by at least one check.\n\n")
+        f.write("| seeded change | breaks | what it does / what it needs | caught by | first report |\n|---|---|---|---|---|\n")
+        for sid in sorted(store):
+            v = store[sid]
+            if "error" in v:
+                f.write(f"| {sid} | {v['property']} | {v['summary']} | (not run: {v['error']}) | |\n")
                 continue
-            fired = [c for c, rc, _ in res if rc == 1]
-            inc = [c + "?" for c, rc, _ in res if rc == 2]
-            line = next((l for c, rc, l in res if c == meta["property"] and rc == 1), "")
-            if not line:
-                line = next((l for c, rc, l in res if rc == 1), "")
-            f.write(f"| {sid} | {meta['property']} | {meta.get('summary','')} Needs: {meta.get('needs','')} | "
-                    f"{', '.join(fired + inc) or '**missed**'} | {line.replace('|', '/')} |\n")
+            marks = v["caught_by"] + [c + "?" for c in v["inconclusive"]]
+            f.write(f"| {sid} | {v['property']} | {(v['summary'] + ' Needs: ' + v['needs']).replace('|', '/')} | "
+                    f"{', '.join(marks) if v['caught_by'] else '**missed** ' + ', '.join(marks)} | "
+                    f"{v['first_report'].replace('|', '/')} |\n")
     return 0
 
 
